@@ -429,6 +429,10 @@ def run(rng: Rng, tier: str, index: int) -> RunResult:
         res.violation(ID, v[0], v[1], {"cell": list(cell), "seed": rng.label, "ci": ci})
     if index % SLICES == 0:
         _attacker_events(rng.sub("attacker"), node, res, tr)
+    for j in range(6):
+        label = rng.label + "/one-bad-member%d" % j
+        for v in one_bad_member_problems(Rng(label), res):
+            res.violation(ID, v[0], v[1], {"attacker": "one-bad-member", "seed": label})
     res.stats["cells_total"] = len(cells())
     res.events = tr.n
     res.digest = tr.digest()
@@ -581,8 +585,86 @@ def op_history_problems(node, rng, res=None) -> list:
     return out
 
 
+def one_bad_member_problems(rng, res=None) -> list:
+    """a JSON serialization with several signatures / recipients: every member's key passes the gates, wherever the unsuitable
+    one stands (first, in the middle, last) and however the keys are handed over (key set by kid, callable)"""
+    from joserfc import jws, jwe
+    from joserfc.jwk import KeySet
+    out = []
+    reg = JW.registry()
+    A = list(rjws.ALL_ALGS)
+    n = rng.pick([2, 3, 3, 4])
+    bad_at = rng.randrange(n)
+    flaw = rng.pick(["use", "ops", "public", "type"])
+    side = rng.pick(["jws-sign", "jws-verify", "jwe-encrypt"])
+    mats, jkeys, members = [], [], []
+    for i in range(n):
+        kind = rng.pick(["oct", "ec", "rsa"]) if side != "jwe-encrypt" else rng.pick(["oct", "ec", "rsa"])
+        if kind == "oct":
+            m = K.make_oct(rng.sub("k%d" % i), 16 if side == "jwe-encrypt" else 32)
+            alg = "A128KW" if side == "jwe-encrypt" else "HS256"
+        elif kind == "ec":
+            m = K.make_ec(rng.sub("k%d" % i), "P-256")
+            alg = "ECDH-ES+A128KW" if side == "jwe-encrypt" else "ES256"
+        else:
+            m = K.make_rsa(rng.sub("k%d" % i), 2048)
+            alg = "RSA-OAEP" if side == "jwe-encrypt" else "RS256"
+        params = {"kid": "m%d" % i}
+        private = side == "jws-sign"
+        if i == bad_at:
+            if flaw == "use":
+                params["use"] = "enc" if side != "jwe-encrypt" else "sig"
+            elif flaw == "ops":
+                params["key_ops"] = {"jws-sign": ["verify"], "jws-verify": ["sign"] if kind != "oct" else ["wrapKey"],
+                                     "jwe-encrypt": ["sign", "verify"]}[side]
+            elif flaw == "public":
+                if side != "jws-sign" or kind == "oct":
+                    params["use"] = "enc" if side != "jwe-encrypt" else "sig"
+                else:
+                    private = False
+            else:
+                other = K.make_oct(rng.sub("o%d" % i), 32) if kind != "oct" else K.make_ec(rng.sub("o%d" % i), "P-256")
+                m = other
+        mats.append((m, alg))
+        jk = K.to_jose_fast(RKey(m.kty, m.crv, m.pub, m.priv, m.k, params), private or m.kty == "oct" or side == "jws-verify" and False)
+        jkeys.append(jk)
+        members.append({"protected": {"alg": alg, "kid": "m%d" % i}} if side != "jwe-encrypt" else {"alg": alg, "kid": "m%d" % i})
+    how = rng.pick(["set", "callable"])
+    keyarg = KeySet(list(jkeys)) if how == "set" else (lambda o, _k={"m%d" % i: j for i, j in enumerate(jkeys)}: _k[o.headers()["kid"]])
+    name = "%s, %d members, member %d has %s, keys by %s" % (side, n, bad_at, {"use": "the wrong use", "ops": "key_ops without the operation",
+                                                                              "public": "no private half / the wrong use", "type": "another key type"}[flaw], how)
+    if res is not None:
+        res.case("one-bad-member", side, n, bad_at, flaw, how)
+        res.fired("json-serialization:one-unsuitable-member-key")
+    with warnings.catch_warnings():
+        warnings.simplefilter("ignore")
+        try:
+            if side == "jws-sign":
+                jws.serialize_json(members, b"m", keyarg, algorithms=A)
+            elif side == "jws-verify":
+                # the peer signs every member with the material behind the verifier's key object (the flaw is in the verifier's declaration)
+                parts = []
+                for i, (m, alg) in enumerate(mats):
+                    if i == bad_at and flaw == "type":
+                        return out       # a member nobody can have signed: not this probe's business
+                    parts.append((rjws.compact_json({"alg": alg, "kid": "m%d" % i}), None, alg, m))
+                tok = rjws.make_general(b"m", parts)
+                jws.deserialize_json(tok, keyarg, algorithms=A)
+            else:
+                o = jwe.GeneralJSONEncryption({"enc": "A128GCM"}, b"p")
+                for h in members:
+                    o.add_recipient(h)
+                jwe.encrypt_json(o, keyarg, registry=reg)
+        except Exception:
+            return out
+    out.append(("one-bad-member:%s:%s:accepted" % (side, flaw), name + ": the operation succeeded"))
+    return out
+
+
 def replay(repro: dict):
     out = []
+    if repro.get("attacker") == "one-bad-member":
+        return one_bad_member_problems(Rng(repro["seed"]))
     if repro.get("attacker") == "op-history":
         return op_history_problems(Node(Rng(repro["seed"] + "/node")), Rng(repro["seed"]).sub("op-history"))
     if "cell" in repro:
